@@ -108,6 +108,45 @@ example : intentTokenStateRec.wf ⟨1, [3600, 11, 22, 1, 0, 1, 0, 1, 0]⟩ ∧
     intentTokenStateRec.roundtrip ⟨1, [3600, 11, 22, 1, 0, 1, 0, 1, 0]⟩ =
       some ⟨1, [3600, 11, 22, 1, 0, 1, 0, 1, 0]⟩ := by decide
 
+/-! ## Timestamps: the one lossy field (known finding D24) -/
+
+/-- A stored-integer time codec reads a time back unchanged exactly when the time is a whole
+number of its units. -/
+theorem time_codec_roundtrip_iff (c : TimeCodec) (hpos : 0 < c.unitNs) (t : Nat) :
+    c.load (c.store t) = t ↔ t % c.unitNs = 0 := by
+  unfold TimeCodec.load TimeCodec.store
+  constructor
+  · intro h
+    rw [← h]
+    exact Nat.mul_mod_left _ _
+  · intro h
+    have := Nat.div_add_mod t c.unitNs
+    rw [h, Nat.add_zero, Nat.mul_comm] at this
+    exact this
+
+/-- The full statement for the queued message's `expiry_time` (nanoseconds since the epoch):
+every expiry time reads back unchanged. -/
+def message_expiry_roundtrip_full : Prop :=
+  ∀ t : Nat, messageExpiryCodec.load (messageExpiryCodec.store t) = t
+
+/-- D24: it is false of the code as it is — `time::serde::timestamp` keeps whole seconds, the
+server computes the expiry from a nanosecond clock. Witness: 1.5 s after the epoch reads back
+as 1 s (replayed on the real code by the harness, class `message-expiry-subsecond-lost`). -/
+theorem message_expiry_roundtrip_full_false : ¬ message_expiry_roundtrip_full := by
+  intro h
+  have := h 1500000000
+  revert this
+  decide
+
+/-- What does hold: an expiry that is a whole number of stored units (whole seconds) reads back
+unchanged. -/
+theorem message_expiry_roundtrip_partial (t : Nat) (h : t % messageExpiryCodec.unitNs = 0) :
+    messageExpiryCodec.load (messageExpiryCodec.store t) = t :=
+  (time_codec_roundtrip_iff messageExpiryCodec (by decide) t).mpr h
+
+example : messageExpiryCodec.load (messageExpiryCodec.store 1700000000000000000) = 1700000000000000000 := by
+  decide
+
 /-! ## Valuesets and whole entries -/
 
 /-- A valueset of any struct (= any syntax) with any elements reads back from its stored form
@@ -146,9 +185,15 @@ theorem entry_storage_roundtrip (single : VS → Option Nat) (uuidKey : Nat) (e 
   have hfilter : (l'.filter fun kv => !kv.2.elems.isEmpty) = l'.filter nonEmptyDb := rfl
   simp [toDbEntry, fromDbEntry, convCState, hc, hd, h1, hfilter, h2, huuid]
 
-/-- Corollary in the shape of the property: an entry without empty valuesets reads back as
-itself. -/
-theorem entry_storage_roundtrip_exact (single : VS → Option Nat) (uuidKey : Nat) (e : Entry)
+/-- The full statement: every well-formed entry reads back as itself. -/
+def entry_storage_roundtrip_full : Prop :=
+  ∀ (single : VS → Option Nat) (uuidKey : Nat) (e : Entry), e.wf →
+    (e.attrs.lookup uuidKey).bind single = some e.uuid →
+    (toDbEntry valuesetDispatch changestate e).bind
+        (fun d => fromDbEntry valuesetDispatch changestate single uuidKey d e.id) = some e
+
+/-- The strongest part that holds: an entry without empty valuesets reads back as itself. -/
+theorem entry_storage_roundtrip_partial (single : VS → Option Nat) (uuidKey : Nat) (e : Entry)
     (hwf : e.wf) (hne : ∀ kv ∈ e.attrs, kv.2.elems ≠ [])
     (huuid : (e.attrs.lookup uuidKey).bind single = some e.uuid) :
     (toDbEntry valuesetDispatch changestate e).bind
@@ -170,7 +215,9 @@ example : (toDbEntry valuesetDispatch changestate sampleEntry).bind
     (fun d => fromDbEntry valuesetDispatch changestate sampleSingle 0 d 7) = some sampleEntry := by
   decide
 
-/-- What the code does with an in-memory *empty* valueset: it is stored, but not loaded. -/
+/-- What the code does with an in-memory *empty* valueset: it is stored, but not loaded
+(finding `empty-valueset-dropped`; the harness replays it on a recycled person whose sessions
+were purged). -/
 theorem entry_empty_set_dropped :
     ∃ e : Entry, e.wf ∧
       (toDbEntry valuesetDispatch changestate e).bind
@@ -181,6 +228,20 @@ theorem entry_empty_set_dropped :
     · intro kv hkv
       simp at hkv
       rcases hkv with h | h <;> subst h <;> decide, by decide⟩
+
+/-- …so the full statement is false of the code as it is. -/
+theorem entry_storage_roundtrip_full_false : ¬ entry_storage_roundtrip_full := by
+  intro h
+  have := h sampleSingle 0 ⟨900, 7, ⟨0, 5, []⟩, [(0, ⟨47, [900]⟩), (1, ⟨46, []⟩)]⟩
+    (by
+      constructor
+      · decide
+      · intro kv hkv
+        simp at hkv
+        rcases hkv with h | h <;> subst h <;> decide)
+    (by decide)
+  revert this
+  decide
 
 /-! ## Replication -/
 
